@@ -604,15 +604,18 @@ macro_rules! wrap_impl_uint {
         $(
             impl Wrap for $T {
                 // https://stackoverflow.com/a/707426
-                fn wrapped_between(mut self, lower: Self, upper: Self) -> Self {
+                fn wrapped_between(self, lower: Self, upper: Self) -> Self {
                     assert!(lower < upper);
                     assert!(lower >= Self::zero());
                     assert!(upper > Self::zero());
                     let range_size = upper - lower /*+ Self::one()*/;
-                    if self < lower {
-                        self += range_size * ((lower-self)/range_size + Self::one());
-                    }
-                    lower + (self - lower) % range_size
+                    // Work on remainders (which always fit in the type) rather than on
+                    // `self - lower` or a multiple of `range_size`, which may not.
+                    let a = self % range_size;  // in (-range_size, range_size)
+                    let b = lower % range_size; // in [0, range_size)
+                    let d = if a >= b { a - b } else { a + (range_size - b) };
+                    let d = if d < Self::zero() { d + range_size } else { d };
+                    lower + d
                 }
                 fn wrapped(self, upper: Self) -> Self {
                     assert!(upper > Self::zero());
@@ -620,11 +623,13 @@ macro_rules! wrap_impl_uint {
                 }
                 fn pingpong(self, upper: Self) -> Self {
                     assert!(upper > Self::zero());
-                    let r = self % (upper+upper);
-                    if r < upper {
+                    // `upper+upper` may not fit in the type: use the parity of the quotient instead.
+                    let two = Self::one() + Self::one();
+                    let (q, r) = (self / upper, self % upper);
+                    if q % two == Self::zero() {
                         r
                     } else {
-                        upper+upper-r
+                        upper - r
                     }
                 }
             }
@@ -636,15 +641,18 @@ macro_rules! wrap_impl_sint {
         $(
             impl Wrap for $T {
                 // https://stackoverflow.com/a/707426
-                fn wrapped_between(mut self, lower: Self, upper: Self) -> Self {
+                fn wrapped_between(self, lower: Self, upper: Self) -> Self {
                     assert!(lower < upper);
                     assert!(lower >= Self::zero());
                     assert!(upper > Self::zero());
                     let range_size = upper - lower /*+ Self::one()*/;
-                    if self < lower {
-                        self += range_size * ((lower-self)/range_size + Self::one());
-                    }
-                    lower + (self - lower) % range_size
+                    // Work on remainders (which always fit in the type) rather than on
+                    // `self - lower` or a multiple of `range_size`, which may not.
+                    let a = self % range_size;  // in (-range_size, range_size)
+                    let b = lower % range_size; // in [0, range_size)
+                    let d = if a >= b { a - b } else { a + (range_size - b) };
+                    let d = if d < Self::zero() { d + range_size } else { d };
+                    lower + d
                 }
                 fn wrapped(self, upper: Self) -> Self {
                     assert!(upper > Self::zero());
@@ -652,11 +660,15 @@ macro_rules! wrap_impl_sint {
                 }
                 fn pingpong(self, upper: Self) -> Self {
                     assert!(upper > Self::zero());
-                    let r = self.wrapped(upper+upper);
-                    if r <= upper {
+                    // `upper+upper` may not fit in the type: use the parity of the quotient instead.
+                    // The triangle wave is even, so a negative remainder is simply negated.
+                    let two = Self::one() + Self::one();
+                    let (q, r) = (self / upper, self % upper);
+                    let r = if r < Self::zero() { Self::zero() - r } else { r };
+                    if q % two == Self::zero() {
                         r
                     } else {
-                        upper+upper-r
+                        upper - r
                     }
                 }
             }
